@@ -581,6 +581,83 @@ def _bigtsv_case(args):
     return 10, vs
 
 
+NBIGKDE = 4000
+
+
+def _bigkde_case(args):
+    """One large sample per estimator (4000 events, 800 of them excluded and
+    poisoned): scatter densities at the 3200 selected events (more than
+    2**23 event x position pairs), in linear and log scale, equal the
+    reference estimator, the same call on a dataset of the selected events
+    only, and the same positions asked for in batches of 400."""
+    kt, = args
+    out = []
+    cnt = 0
+    n = NBIGKDE
+    k = np.arange(n)
+    x0 = 60.0 + 25.0 * np.sin(k * 0.37) + (k % 41) * 0.9
+    y0 = 0.02 + 0.015 * (1 + np.cos(k * 0.11)) + (k % 29) * 1e-3
+    mask = (k % 5) != 2
+    x, y = x0.copy(), y0.copy()
+    for i in np.flatnonzero(~mask):
+        x[i], y[i] = POISON[i % len(POISON)]
+    ds = _new(x, y)
+    ds.filter.manual[:] = mask
+    ds.apply_filter()
+    sub = _new(x0[mask], y0[mask])
+    sub.apply_filter()
+    W = "dclab.rtdc_dataset.core:RTDCBase.get_kde_scatter"
+    for scale in ("linear", "log"):
+        cnt += 1
+        case = {"kind": "bigkde", "kde": kt, "scale": scale}
+        tags = {"kde": kt, "scale": scale, "scope": "large-input"}
+        try:
+            kw = dict(xax="area_um", yax="deform", kde_type=kt,
+                      xscale=scale, yscale=scale)
+            got = np.asarray(ds.get_kde_scatter(**kw))
+            alone = np.asarray(sub.get_kde_scatter(**kw))
+            if not eq(got, alone):
+                bad = np.flatnonzero(~np.isclose(got, alone, rtol=1e-12,
+                                                 equal_nan=True))
+                out.append(violation(
+                    W, "depends-on-excluded-events", case,
+                    f"{kt}/{scale}: {bad.size} of {got.size} densities "
+                    f"differ from the dataset of the selected events "
+                    f"(first at selected event {bad[:1].tolist()})", tags))
+                continue
+            xs, ys = x0[mask], y0[mask]
+            if scale == "log":
+                xs, ys = np.log(xs), np.log(ys)
+            if kt in ("gauss", "multivariate"):
+                ref = ref_kde(kt, xs, ys, xs, ys)
+                if not np.allclose(got, ref, rtol=1e-8, atol=0):
+                    bad = np.flatnonzero(~np.isclose(got, ref, rtol=1e-8,
+                                                     atol=0))
+                    out.append(violation(
+                        W, "differs-from-reference-estimator", case,
+                        f"{kt}/{scale}: {bad.size} of {got.size} densities "
+                        f"differ from the reference estimator, first at "
+                        f"selected event {bad[0]}: {got[bad[0]]!r} vs "
+                        f"{ref[bad[0]]!r}", tags))
+                    continue
+            px, py = x0[mask], y0[mask]
+            parts = [np.asarray(ds.get_kde_scatter(
+                positions=(px[a:a + 400], py[a:a + 400]), **kw))
+                for a in range(0, px.size, 400)]
+            if not np.allclose(np.concatenate(parts), got, rtol=1e-10,
+                               atol=0):
+                out.append(violation(
+                    W, "depends-on-batch", case,
+                    f"{kt}/{scale}: the densities at the selected events "
+                    f"asked for in batches of 400 differ from one call",
+                    tags))
+        except Exception as e:
+            out.append(violation(W, "exception", case,
+                                 f"{type(e).__name__}: {e}",
+                                 dict(tags, exc=type(e).__name__)))
+    return cnt, out
+
+
 def _quantile_case(args):
     """The level reported for quantile q leaves the fraction q below it."""
     seed, = args
@@ -643,6 +720,8 @@ def run(ctx):
     res = par.pmap(_mask_case, items)
     res += par.pmap(_quantile_case, [(ctx.seed,)])
     res += par.pmap(_bigtsv_case, [(ctx.scratch,)])
+    res += par.pmap(_bigkde_case, [(kt,) for kt in (
+        "histogram", "gauss", "multivariate")])
     res += par.pmap(_invalid_switch_case, [(ctx.seed,)])
     res += par.pmap(_int_axis_case, [(ctx.seed,)])
     res += par.pmap(_contour_mesh_case, [(ctx.seed,)])
@@ -691,6 +770,9 @@ def replay(case, ctx):
                 if v["case"] == case]
     if case["kind"] == "invalid-switch":
         return [v for v in _invalid_switch_case((case["seed"],))[1]
+                if v["case"] == case]
+    if case["kind"] == "bigkde":
+        return [v for v in _bigkde_case((case["kde"],))[1]
                 if v["case"] == case]
     if case["kind"] == "bigtsv":
         return [v for v in _bigtsv_case((ctx.scratch,))[1]
